@@ -5,7 +5,8 @@ import ScriggoV.Spec.CutSpec
   `render <format> <hex>`  → `ok <hex>` | `err lex|unsupported|fuel|slice|…`   (Model/Cut.lean)
   `spec <format> <hex>`    → `ok <0|1> <hex>` | `err …`   (Spec/CutSpec.lean on the same tokens;
                               the flag says whether the source is in the class of the theorem)
-  `toks <format> <hex>`    → `ok <canonical token list>` | `err …` -/
+  `toks <format> <hex>`    → `ok <canonical token list>` | `err …`
+  `endraw <marker-hex> <hex>` → `ok <index>` | `ok -1` | `err unsupported`   (endRawIndex) -/
 namespace ScriggoV.Drv.C15
 open ScriggoV ScriggoV.Cut
 
@@ -37,6 +38,13 @@ def handle : List String → Option String
     let s ← fromHex h
     match tokenize fmt (s.drop (shebangLen s)) with
     | .ok raws => pure ("ok " ++ toString (shebangLen s) ++ " " ++ String.intercalate "," (raws.map showRaw))
+    | .error e => pure ("err " ++ e.name)
+  | ["endraw", m, h] => do
+    let marker ← fromHex m
+    let s ← fromHex h
+    match endRawIndex marker s 0 with
+    | .ok (some k) => pure ("ok " ++ toString k)
+    | .ok none => pure "ok -1"
     | .error e => pure ("err " ++ e.name)
   | _ => none
 
